@@ -118,3 +118,13 @@ func spec_recvOK(i int) bool { panic("spec") }
 //@ loop 5: invariant [C11] forall k1, k2 string :: has(v.idsymtabl, k1) && has(v.idsymtabl, k2) && k1 != k2 &&
 //@     before(v.idsymtabl[k1].Value) == 0 && v.idsymtabl[k1].Value != 0 && before(v.idsymtabl[k2].Value) == 0 && v.idsymtabl[k2].Value != 0 ==> v.idsymtabl[k1].Value != v.idsymtabl[k2].Value
 //@ loop 5: invariant [C11] forall j int :: 0 <= j && j < idx5 ==> v.idsymtabl[rng5[j]].Value != 0
+
+// ---------------------------------------------------------------------------------------------
+// C17 / C11: names shown to the user. A character literal 'c' is stored under the internal name "$operator" + c
+// and must be shown as 'c' ; every other name is shown as it is.
+//@ func RemoveTempName
+//@ props C17
+//@ results out
+//@ ensures [C17] len(in) > 9 && in[0:9] == "$operator" ==> out == "'" + in[9:] + "' "
+//@ ensures [C17] !(len(in) > 9 && in[0:9] == "$operator") ==> out == in
+//@ modifies nothing
